@@ -125,6 +125,7 @@ class Setup:
             kw["inflow_at"] = setting
         else:
             kw["n_pts_per_interval"] = int(setting[2:])
+            kw["inflow_at"] = ["start", "middle", "end"][variant % 3]     # documented to be ignored for n > 1
         prm = self.prm_argument(variant)
         name = "mean" if cfg["family"] == "fixed" else "period"
         cls = flodym.FixedLifetime if cfg["family"] == "fixed" else StepLifetime
@@ -252,7 +253,7 @@ def run_vector(vec):
                 problems += [tagc + x for x in cmp_table(st.inflow.values, e_in, "inflow", "{C10,C16}", scale)]
                 problems += [tagc + x for x in cmp_table(st.outflow.values, e_out, "outflow", "{C10,C03}", scale)]
             if cls != "flow":
-                tg = "{C09,C10}" if cls == "stock" else "{C09}"
+                tg = ("{C09,C10,C16}" if int_driver else "{C09,C10}") if cls == "stock" else "{C09}"
                 problems += [tagc + x for x in cmp_table(st.get_stock_by_cohort(), S.table2(vec["res"]["sbc"]), "stock_by_cohort", tg, scale)]
                 problems += [tagc + x for x in cmp_table(st.get_outflow_by_cohort(), S.table2(vec["res"]["obc"]), "outflow_by_cohort", tg, scale)]
         # --- the library's own balance check accepts a computed stock and rejects a perturbed one
